@@ -206,7 +206,38 @@ impl<'a> Sites<'a> {
         self.expr(&m.matched, "match scrutinee");
         m.cases.iter().for_each(|c| self.expr(&c.body, "match arm body"));
       }
-      expr::E::Lambda(l) => self.expr(&l.body, "lambda body"),
+      expr::E::Lambda(l) => {
+        // annotate each un-annotated lambda parameter with its inferred type, singly and all at once
+        let mut all: Vec<(usize, String)> = vec![];
+        for p in &l.parameters.parameters {
+          if p.annotation.is_none() && type_closed_and_nameable(&p.type_, self.heap, self.names) {
+            if let Some((_, ne)) = span(self.text, &p.name.loc) {
+              let ty = p.type_.pretty_print(self.heap);
+              self.edit(
+                "annotate-lambda-parameter",
+                format!("{}: {ty} at {}:{}", p.name.name.as_str(self.heap), p.name.loc.start.0 + 1, p.name.loc.start.1 + 1),
+                ne,
+                ne,
+                format!(": {ty}"),
+              );
+              all.push((ne, format!(": {ty}")));
+            }
+          }
+        }
+        if all.len() > 1 {
+          let mut t = self.text.to_string();
+          for (at, ins) in all.iter().rev() {
+            t.insert_str(*at, ins);
+          }
+          self.out.push(Rewrite {
+            kind: "annotate-lambda-parameter",
+            what: format!("all {} parameters of the lambda at {}:{}", all.len(), l.common.loc.start.0 + 1, l.common.loc.start.1 + 1),
+            new_text: t,
+            extra_module: None,
+          });
+        }
+        self.expr(&l.body, "lambda body")
+      }
       expr::E::Block(b) => self.block(b),
     }
   }
@@ -476,7 +507,7 @@ fn spelling_trees_exact(k: usize) -> Vec<String> {
   out
 }
 
-const SPELLING_CONTEXTS: [(&str, &str); 7] = [
+const SPELLING_CONTEXTS: [(&str, &str); 10] = [
   ("closed-parameter", "Main.takeOpt(@)"),
   ("generic-function-closed-parameter", "Main.pickA(@, 0)"),
   ("generic-function-closed-parameter-last", "Main.pickB(0, @)"),
@@ -484,11 +515,14 @@ const SPELLING_CONTEXTS: [(&str, &str); 7] = [
   ("generic-method-of-instantiated-class", "Box.init(1).w(@, 0)"),
   ("generic-parameter", "Main.size(@)"),
   ("lambda-result", "Main.app(() -> Main.takeOpt(@))"),
+  ("generic-hof-matching-lambda", "Main.fold2(@, 0, (p, q) -> match p { None -> q, Some(w) -> w + q })"),
+  ("generic-hof-matching-lambda-swapped", "Main.fold3(0, @, (q, p) -> match p { None -> q, Some(w) -> w + q })"),
+  ("generic-hof-half-annotated-lambda", "Main.fold2(@, 0, (p, q: int) -> match p { None -> q, Some(w) -> w + q })"),
 ];
 
 fn spelling_module(body: &str) -> String {
   format!(
-    "class Option<T>(None, Some(T)) {{}}\nclass Box<T>(val v: T) {{\n  method <R> w(a: Option<T>, r: R): int = match a {{ None -> 0, Some(_) -> 1 }}\n}}\nclass Main {{\n  function <T> id(x: T): T = x\n  function <T> first(a: T, b: T): T = a\n  function <T> app(f: () -> T): T = f()\n  function <T> size(a: Option<T>): int = match a {{ None -> 0, Some(_) -> 1 }}\n  function takeOpt(a: Option<int>): int = match a {{ None -> 0, Some(n) -> n + 1 }}\n  function <T> pickA(a: Option<int>, b: T): int = Main.takeOpt(a)\n  function <T> pickB(b: T, a: Option<int>): int = Main.takeOpt(a)\n  function run(c: bool, o: Option<bool>, d: Option<int>): int =\n    {body}\n  function main(): unit = {{\n    Process.println(Str.fromInt(Main.run(true, Option.Some(true), Option.Some(5))));\n    Process.println(Str.fromInt(Main.run(false, Option.None(), Option.None())))\n  }}\n}}\n"
+    "class Option<T>(None, Some(T)) {{}}\nclass Box<T>(val v: T) {{\n  method <R> w(a: Option<T>, r: R): int = match a {{ None -> 0, Some(_) -> 1 }}\n}}\nclass Main {{\n  function <T> id(x: T): T = x\n  function <T> first(a: T, b: T): T = a\n  function <T> app(f: () -> T): T = f()\n  function <T> size(a: Option<T>): int = match a {{ None -> 0, Some(_) -> 1 }}\n  function takeOpt(a: Option<int>): int = match a {{ None -> 0, Some(n) -> n + 1 }}\n  function <T> pickA(a: Option<int>, b: T): int = Main.takeOpt(a)\n  function <T> pickB(b: T, a: Option<int>): int = Main.takeOpt(a)\n  function <A, B> fold2(a: A, b: int, f: (A, int) -> B): B = f(a, b)\n  function <A, B> fold3(b: int, a: A, f: (int, A) -> B): B = f(b, a)\n  function run(c: bool, o: Option<bool>, d: Option<int>): int =\n    {body}\n  function main(): unit = {{\n    Process.println(Str.fromInt(Main.run(true, Option.Some(true), Option.Some(5))));\n    Process.println(Str.fromInt(Main.run(false, Option.None(), Option.None())))\n  }}\n}}\n"
   )
 }
 
@@ -624,7 +658,7 @@ fn main() {
     for t in spelling_trees_exact(k) {
       for (ci, (cname, ctx)) in SPELLING_CONTEXTS.iter().enumerate() {
         // quick: full trees in three contexts, trees <= 1 internal node in the others
-        if run.quick() && k == 2 && ![1, 5, 0].contains(&ci) {
+        if run.quick() && k == 2 && ![1, 5, 0, 7].contains(&ci) {
           continue;
         }
         programs.push(Program {
